@@ -275,6 +275,24 @@ def firstMax : List (α × Nat) → Option (α × Nat)
 
 end Generic
 
+/-- What loading one entry point of the group `emsarray.conventions` gives. -/
+inductive EntryPoint where
+  /-- loads to a `Convention` subclass -/
+  | cls (c : Cls)
+  /-- `entry_point.load()` raises `AttributeError` / `ImportError`: logged and skipped -/
+  | loadError
+  /-- loads to something that is not a `Convention` subclass: logged and skipped -/
+  | notConvention
+deriving DecidableEq, Repr
+
+def EntryPoint.cls? : EntryPoint → Option Cls
+  | .cls c => some c
+  | _ => none
+
+/-- `entry_point_conventions()`: the classes the entry points load to, in entry-point order,
+unusable entry points skipped, each class once -/
+def scanEntryPoints (eps : List EntryPoint) : List Cls := dedupAux [] (eps.filterMap EntryPoint.cls?)
+
 /-- `registry.match_conventions(dataset)` for the real registry: `reg` = classes registered
 with `register_convention`, in registration order -/
 def matchDataset (env : SynthEnv) (reg : List Cls) (f : Features) : Except Unit (List (Cls × Nat)) :=
